@@ -33,9 +33,15 @@ theorem AclEqv_typed (y : List ALine) : AclEqv (y.map typed) y := by
   rw [List.map_map]
   exact BlockEqG_of_eq (List.map_congr_left fun l _ => rfl)
 
+/-- The pairs of access lists the engine can compare: bound in the same direction to interfaces of
+the same name. -/
+def Cmp (e : Env) (aN bN : Name) : Prop :=
+  ∃ ai ∈ e.a.intfs, ∃ bi ∈ e.b.intfs, ai.name = bi.name ∧
+    ∃ ba ∈ ai.binds, ∃ bb ∈ bi.binds, ba.dir = bb.dir ∧ ba.acl = aN ∧ bb.acl = bN
+
 /-- Static hypotheses on the pairs of access lists (decidable; evaluated by the driver). -/
 structure WFE (e : Env) : Prop where
-  pairs : ∀ aN bN, e.a.hasAcl aN = true → e.b.hasAcl bN = true →
+  pairs : ∀ aN bN, e.a.hasAcl aN = true → e.b.hasAcl bN = true → Cmp e aN bN →
     pairOK (e.a.lines aN) (e.b.lines bN) (lookupD e.sc.acl (aN, bN)) = true
   appendB : ∀ bN, e.b.hasAcl bN = true → appendOKFrom [] (e.b.lines bN) = true
 
@@ -157,11 +163,11 @@ theorem AclEqv_nil : AclEqv [] [] := ⟨[], BlockEqG.refl _⟩
 
 /-- `diffCmds(A.sub, B.sub)` on a device that still holds the original lines of `aN`. -/
 theorem run_edit {e : Env} (hwf : WFE e) (aN bN : Name) (ha : e.a.hasAcl aN = true) (hb : e.b.hasAcl bN = true)
-    (d : Dev) (hhas : hasAcl d aN = true) (hmode : d.mode = none) (hnd : (aclNames d).Nodup)
+    (hcmp : Cmp e aN bN) (d : Dev) (hhas : hasAcl d aN = true) (hmode : d.mode = none) (hnd : (aclNames d).Nodup)
     (hlines : (entriesOf d aN).map (·.2) = e.a.lines aN) :
     ∃ esF, evsRun d (expand (.edit aN (e.a.lines aN) (e.b.lines bN) (lookupD e.sc.acl (aN, bN)))) =
         some (putAcl d aN esF) ∧ AclEqv (esF.map (·.2)) (e.b.lines bN) := by
-  have hp := hwf.pairs aN bN ha hb
+  have hp := hwf.pairs aN bN ha hb hcmp
   simp only [pairOK, Bool.or_eq_true] at hp
   rcases hp with hp | hp
   · obtain ⟨esF, h1, h2⟩ := edit_incremental aN _ _ _ hp d hhas hmode hnd hlines
@@ -173,7 +179,7 @@ theorem run_edit {e : Env} (hwf : WFE e) (aN bN : Name) (ha : e.a.hasAcl aN = tr
 returned name is its current name. -/
 theorem sem_diffAcl {e : Env} (hwf : WFE e) {P : List Name} {d0 : Dev} {st : St} {d : Dev} {σ : String → String → Status}
     {π : List (Nat × Nat)} (h : Sem e P d0 st d σ π) (aN bN : Name) (ha : e.a.hasAcl aN = true)
-    (hb : e.b.hasAcl bN = true) :
+    (hb : e.b.hasAcl bN = true) (hcmp : Cmp e aN bN) :
     ∃ d', Sem e P d0 (diffAcl e st aN bN).1 d' σ π ∧ bN ∈ (diffAcl e st aN bN).1.aReady ∧
       (diffAcl e st aN bN).2 = (diffAcl e st aN bN).1.nameOf bN ∧
       (diffAcl e st aN bN).1.bNeeded = st.bNeeded ∧ (∀ x ∈ st.aReady, x ∈ (diffAcl e st aN bN).1.aReady) ∧
@@ -218,7 +224,7 @@ theorem sem_diffAcl {e : Env} (hwf : WFE e) {P : List Name} {d0 : Dev} {st : St}
           simp only [Bool.and_eq_true, List.isEmpty_iff] at hemp
           rw [hkeep, hemp.1, hemp.2]; exact AclEqv_nil
         · simp only [hemp, Bool.false_eq_true, ↓reduceIte]
-          obtain ⟨esF, h1, h2⟩ := run_edit hwf aN bN ha hb d hhas h.mode h.namesNd hkeep
+          obtain ⟨esF, h1, h2⟩ := run_edit hwf aN bN ha hb hcmp d hhas h.mode h.namesNd hkeep
           refine ⟨putAcl d aN esF, ?_, esF, rfl, h2⟩
           show actsRun d0 (st.acts ++ [_]) = _
           rw [actsRun_snoc, h.run, Option.bind_some, h1]
@@ -412,7 +418,7 @@ theorem sem_addBind1 {e : Env} (hwf : WFE e) {P : List Name} {d0 : Dev} {st : St
 
 theorem sem_makeEqualBind {e : Env} (hwf : WFE e) {P : List Name} {d0 : Dev} {st : St} {d : Dev} {σ : String → String → Status}
     {π : List (Nat × Nat)} (h : Sem e P d0 st d σ π) (i k : Nat) (x : String) (a b : Bind)
-    (ha : e.a.hasAcl a.acl = true) (hb : e.b.hasAcl b.acl = true) (hdir : a.dir = b.dir)
+    (ha : e.a.hasAcl a.acl = true) (hb : e.b.hasAcl b.acl = true) (hcmp : Cmp e a.acl b.acl) (hdir : a.dir = b.dir)
     (hd : isDir b.dir = true) (hx : hasIntf d0 x = true)
     (hσ : σ x b.dir = .orig) (h0 : slotOf d0 x b.dir = some a.acl) :
     ∃ d', Sem e P d0 (makeEqualBind e st i k x a b) d' (updσ σ x b.dir (.settled b.acl)) ((i, k) :: π) := by
@@ -423,7 +429,7 @@ theorem sem_makeEqualBind {e : Env} (hwf : WFE e) {P : List Name} {d0 : Dev} {st
       rcases List.mem_cons.mp hp with rfl | hp'
       · exact List.mem_cons_self ..
       · exact List.mem_cons_of_mem _ (h.bNeeded p hp')⟩
-  obtain ⟨d1, h1, hr, href, hB, hmono, hnames⟩ := sem_diffAcl hwf h' a.acl b.acl ha hb
+  obtain ⟨d1, h1, hr, href, hB, hmono, hnames⟩ := sem_diffAcl hwf h' a.acl b.acl ha hb hcmp
   unfold makeEqualBind
   simp only [ha, hb, Bool.and_self, ↓reduceIte]
   have hxd : hasIntf d1 x = true := by rw [hasIntf_of_names h1.intfs]; exact hx
